@@ -35,6 +35,26 @@ func VerifC10Cookie() {
 	v.Reach("C10.cookie")
 }
 
+// the plain and the encrypted server-cookie codec with keys of different lengths (nothing in the codec
+// ties the two key lengths together)
+func c14CookieKeys(ns2c, nc2s int) {
+	key := v.Bytes("key", 32)
+	c := ServerCookie{Algo: v.Uint16("algo"), S2C: v.Bytes("s2c", ns2c), C2S: v.Bytes("c2s", nc2s)}
+	var pd ServerCookie
+	v.Assert(pd.Decode(c.Encode()) == nil && pd.Algo == c.Algo && bytes.Equal(pd.S2C, c.S2C) && bytes.Equal(pd.C2S, c.C2S), "C14.cookie.keylens.server-cookie-roundtrip")
+	ec, err := c.EncryptWithNonce(key, 1)
+	v.Assert(err == nil, "C14.cookie.keylens.encrypts")
+	var dc EncryptedServerCookie
+	v.Assert(dc.Decode(ec.Encode()) == nil, "C14.cookie.keylens.own-cookie-decodes")
+	pc, err := dc.Decrypt(key)
+	v.Assert(err == nil && pc.Algo == c.Algo && bytes.Equal(pc.S2C, c.S2C) && bytes.Equal(pc.C2S, c.C2S), "C14.cookie.keylens.encrypted-roundtrip")
+	v.Reach("C14.cookiekeys")
+}
+
+func VerifC14CookieKeys32x64() { c14CookieKeys(32, 64) }
+func VerifC14CookieKeys64x32() { c14CookieKeys(64, 32) }
+func VerifC14CookieKeys0x16()  { c14CookieKeys(0, 16) }
+
 // a cookie with the same layout but arbitrary nonce / ciphertext bytes opens only if they are the sealed ones
 func VerifC10CookieTamper() {
 	key := v.Bytes("key", 32)
